@@ -2,6 +2,7 @@ import LyModel.Diff.Lemmas13Merge
 import LyModel.Diff.Lemmas13Inv
 import LyModel.Diff.LemmasExact
 import LyModel.Diff.LemmasRevLit
+import LyModel.Diff.K13Canon
 /-!
 # C13 — diffs can be reversed and composed (`src/diff.c`: `lyd_diff_reverse_all`, `lyd_diff_merge_all`)
 
@@ -10,11 +11,17 @@ component (C06); observation `dataEqL true` = `lyd_compare_siblings(FULL_RECURSI
 Fragment predicates (executable, Diff/Exact13.lean): `goodT S A` — a tree of leaves, containers, choices, system-ordered
 lists and leaf-lists in libyang's sibling order; `exactDiff S A D` — `D` is an exact diff for `A` (what
 `lyd_diff_siblings(…, LYD_DIFF_DEFAULTS)` produces on the fragment; checked on every generated pair by the check module).
-`KeyOrder S` (Diff/Lemmas13Ord.lean) is the hypothesis that the `sort` callbacks order list / leaf-list instances strictly and
-totally; `keyOrder_of_stringLL` discharges it for schemas whose system-ordered nodes are string leaf-lists.  LIMITATION: it
-cannot hold for a schema with a keyed list (`keyOrder_no_keyed_list`), so the theorems that assume it cover leaves, containers
-and system-ordered leaf-lists only; the ones that do not (`diff_exact`, `reverse_involutive_diff`, `merge_cancel*` in
-Props/C13Merge.lean, `Diff.apply_congr`) cover keyed lists as well.
+Order hypothesis.  `KeyOrder S` (Diff/Lemmas13Ord.lean) — the `sort` callbacks order ALL nodes of the right shape strictly and
+totally — is the hypothesis of the first round of theorems (`reverse_apply*`, `merge_cell_apply`, `merge_apply_reverse`); it is
+UNSATISFIABLE for a schema with a keyed list (`keyOrder_no_keyed_list`: a list instance without its key children is a node of the
+right shape, and `rb_compare_lists` cannot order it), so those theorems are vacuous exactly for keyed lists.  They are SUPERSEDED
+by the `_on` / `_keyed` theorems of the section "keyed lists" below: `K13.KeyOrderOn S P` (Diff/K13Ord.lean) asks the same axioms
+only of the nodes satisfying a predicate `P` that every node of the trees / diffs has to satisfy (`K13.goodT S P`,
+`K13.exactDiff S P`, `K13.allPL P`), and for `P = K13.keyedOK S` — a list instance carries exactly its key leaves, key and
+leaf-list values are canonical for their type — it is PROVED for every schema whose keys are leaves and whose enum values are
+distinct (`K13.keyOrderOn_keyed`, hypothesis `K13.schemaOK S`: decidable, true of every YANG module).  The final statements
+`reverse_apply_keyed`, `merge_apply_reverse_keyed` assume no order hypothesis at all.  (`diff_exact`, `reverse_involutive_diff`,
+`merge_cancel*` in Props/C13Merge.lean, `Diff.apply_congr` never assumed one.)
 
 Every computed diff is exact: `diff_exact` (for the well-formed trees `wfForest` of C06 — `goodT` alone is not enough:
 `diff_exact_goodT_fails`); with it `reverse_apply_diff`, `reverse_apply` (the law as the check evaluates it, with the literal
@@ -29,14 +36,15 @@ open LyModel LyModel.Tree LyModel.Diff
 (`goodT`), the reversed diff of an exact diff `D` applied to the tree `D` leads to gives the original tree back — structure,
 values and the default flags of all leaves / leaf-list instances (`dataEqL true`, the comparison with `LYD_COMPARE_DEFAULTS`).
 No bound on depth, width or the number of changes.  (`KeyOrder S` excludes schemas with keyed lists: `keyOrder_no_keyed_list`;
-the hypothesis `hD` holds for every computed diff: `diff_exact`.) -/
+the hypothesis `hD` holds for every computed diff: `diff_exact`.)  SUPERSEDED by `reverse_apply_partial_on` (same statement under
+`KeyOrderOn S P`, which keyed lists satisfy); this one is its instance `P = fun _ => true`. -/
 theorem reverse_apply_partial {S : Schema} {fx : Fixes} (K : KeyOrder S) {A D : List DNode} (hA : goodT S A = true)
     (hD : exactDiff S A D = true) :
     ∃ B R A', apply S A D fx = .ok B ∧ reverse S D = .ok R ∧ apply S B R fx = .ok A' ∧ dataEqL true A' A = true := by
   obtain ⟨B, R, A', h1, _, h2, _, h3, h4⟩ := reverse_roundtrip K hA hD
   exact ⟨B, R, A', h1, h2, h3, (dataEqL_iff_norm A' A).mpr h4⟩
 
-/-- … stated for the diff of two trees -/
+/-- … stated for the diff of two trees.  SUPERSEDED by `reverse_apply_diff_partial_on`. -/
 theorem reverse_apply_diff_partial {S : Schema} {fx : Fixes} (K : KeyOrder S) {A B₀ : List DNode} (hA : goodT S A = true)
     (hD : exactDiff S A (diff S true A B₀) = true) :
     ∃ B R A', apply S A (diff S true A B₀) fx = .ok B ∧ reverse S (diff S true A B₀) = .ok R ∧ apply S B R fx = .ok A' ∧
@@ -78,8 +86,9 @@ theorem apply_diff_obs (S : Schema) (fx : Fixes) (A B : List DNode) (hA : wfFore
   obtain ⟨B', h1, h2, h3, _⟩ := Diff.diff_chain_exact S fx A B B hA hB hB hk
   exact ⟨B', h1, h2, (dataEqL_iff_norm B' B).mpr h3⟩
 
-/-- `reverse_apply` on the fragment, unconditionally: for well-formed `A`, `B` the reversed diff of `diff(A, B)`, applied to the
-tree the diff leads to, gives `A` back (structure, values, default flags of leaves / leaf-list instances). -/
+/-- `reverse_apply` on the fragment: for well-formed `A`, `B` the reversed diff of `diff(A, B)`, applied to the
+tree the diff leads to, gives `A` back (structure, values, default flags of leaves / leaf-list instances).  SUPERSEDED by
+`reverse_apply_diff_on` / `reverse_apply_diff_keyed` (`KeyOrder S` cannot hold when `S` has a keyed list). -/
 theorem reverse_apply_diff {S : Schema} {fx : Fixes} (K : KeyOrder S) {A B₀ : List DNode} (hA : wfForest S A = true)
     (hB : wfForest S B₀ = true) :
     ∃ B R A', apply S A (diff S true A B₀) fx = .ok B ∧ reverse S (diff S true A B₀) = .ok R ∧ apply S B R fx = .ok A' ∧
@@ -91,7 +100,8 @@ theorem reverse_apply_diff {S : Schema} {fx : Fixes} (K : KeyOrder S) {A B₀ : 
 gives `A` back (structure, values, default flags of leaves / leaf-list instances).  Combines C06 `apply_diff_partial` (its
 hypothesis `KeysDistinguished` follows from `KeyOrder`: `keysDistinguished_of_keyOrder`), `diff_exact`, `reverse_apply_partial`
 and `apply_congr` (Diff/LemmasCongr.lean): `lyd_diff_apply_all` respects the observation in its data argument, for every diff
-and every schema. -/
+and every schema.  SUPERSEDED by `reverse_apply_on` and the hypothesis-free `reverse_apply_keyed` below (`KeyOrder S` cannot hold
+when `S` has a keyed list: `keyOrder_no_keyed_list`). -/
 theorem reverse_apply {S : Schema} {fx : Fixes} (K : KeyOrder S) (A B : List DNode) (hA : wfForest S A = true)
     (hB : wfForest S B = true) :
     ∃ A', reverseApply S true A B fx = .ok A' ∧ dataEqL true A' A = true := by
@@ -99,12 +109,13 @@ theorem reverse_apply {S : Schema} {fx : Fixes} (K : KeyOrder S) (A B : List DNo
   refine ⟨A', ?_, (dataEqL_iff_norm A' A).mpr hn⟩
   simp [reverseApply, hR, Except.bind, applyD, hA']
 
-/-- LIMITATION of every theorem here that assumes `KeyOrder S`: the hypothesis cannot hold for a schema with a keyed
-system-ordered list that has a key leaf.  `KeyOrder` quantifies over all nodes of the right shape (`Dom`), also list instances
+/-- LIMITATION of every theorem here that assumes `KeyOrder S` (repaired by the `_on` / `_keyed` theorems of the section "keyed
+lists"): the hypothesis cannot hold for a schema with a keyed system-ordered list that has a key leaf.  `KeyOrder` quantifies over all nodes of the right shape (`Dom`), also list instances
 whose key children are missing: `x` = an instance without key children, `y` = one with a key child are not the same instance
 (`sameInst`) and `cmpInst` (`rb_compare_lists` stops at the shorter key list) cannot order them, against `KeyOrder.total`.  So
-`reverse_apply*` / `merge_cell_apply` speak about leaves, containers and system-ordered leaf-lists (`keyOrder_of_stringLL`);
-for keyed lists `KeyOrder` would have to be restricted to instances with all their keys (a stronger `Dom` / `goodT`).
+the `KeyOrder` versions of `reverse_apply*` / `merge_cell_apply` speak about leaves, containers and system-ordered leaf-lists
+(`keyOrder_of_stringLL`); `K13.KeyOrderOn S (K13.keyedOK S)` restricts the axioms to instances with all their keys and canonical
+values, and holds (`K13.keyOrderOn_keyed`).
 `diff_exact`, `reverse_involutive_diff` and `apply_congr` do not assume `KeyOrder` and cover keyed lists. -/
 theorem keyOrder_no_keyed_list {S : Schema} (K : KeyOrder S) {s k : Nat} (hs : S.isSorted s = true)
     (hl : S.isKind s .list = true) (hk : S.isKey k = true) : False :=
@@ -152,6 +163,138 @@ theorem reverse_involutive_diff {S : Schema} {A B : List DNode} (hA : wfForest S
 
 example : ∃ R, reverse exS (diff exS true exA exB) = .ok R ∧ reverse exS R = .ok (revDupL (diff exS true exA exB)) :=
   reverse_involutive_diff (by decide +kernel) (by decide +kernel)
+
+/-! ## keyed lists: the same laws under an order hypothesis that keyed lists satisfy, and with no order hypothesis at all
+
+`K13.KeyOrderOn S P`: the axioms of `KeyOrder S`, asked only of nodes that satisfy `P`; `K13.goodT S P` / `K13.exactDiff S P` /
+`K13.allPL P`: the fragment predicates with `P` demanded of every node (Diff/K13Defs.lean, K13Bridge.lean:
+`K13.goodT S P L = goodT S L && K13.allPL P L`).  What is used of the type orders (`Tree.BaseTy.cmp`, the plugins' `sort`
+callbacks): `lt` is asymmetric and transitive, `eq` is a congruence (C06 Diff/OrderTheory.lean), and — for totality — two
+CANONICAL values the callback cannot tell apart are equal (`K13.canon_cmp_eq`; true of the seven types of the tree base, false of
+date-and-time: finding F28). -/
+
+/-- `reverse_apply_partial` under `KeyOrderOn S P`: for a good tree all of whose nodes satisfy `P` and an exact diff all of whose
+nodes satisfy `P`, the reversed diff applied to the tree the diff leads to gives the original tree back. -/
+theorem reverse_apply_partial_on {S : Schema} {fx : Fixes} {P : DNode → Bool} (K : K13.KeyOrderOn S P) {A D : List DNode}
+    (hA : K13.goodT S P A = true) (hD : K13.exactDiff S P A D = true) :
+    ∃ B R A', apply S A D fx = .ok B ∧ reverse S D = .ok R ∧ apply S B R fx = .ok A' ∧ dataEqL true A' A = true := by
+  obtain ⟨B, R, A', h1, _, h2, _, h3, h4⟩ := K13.reverse_roundtrip K hA hD
+  exact ⟨B, R, A', h1, h2, h3, (dataEqL_iff_norm A' A).mpr h4⟩
+
+/-- … with the driver's predicates: `goodT`, `exactDiff` (what the check module evaluates) and `P` on all nodes -/
+theorem reverse_apply_partial_on' {S : Schema} {fx : Fixes} {P : DNode → Bool} (K : K13.KeyOrderOn S P) {A D : List DNode}
+    (hA : goodT S A = true) (hD : exactDiff S A D = true) (hpA : K13.allPL P A = true) (hpD : K13.allPL P D = true) :
+    ∃ B R A', apply S A D fx = .ok B ∧ reverse S D = .ok R ∧ apply S B R fx = .ok A' ∧ dataEqL true A' A = true :=
+  reverse_apply_partial_on K (K13.goodT_intro hA hpA) (K13.exactDiff_intro hD hpD)
+
+/-- … stated for the diff of two trees -/
+theorem reverse_apply_diff_partial_on {S : Schema} {fx : Fixes} {P : DNode → Bool} (K : K13.KeyOrderOn S P) {A B₀ : List DNode}
+    (hA : K13.goodT S P A = true) (hD : K13.exactDiff S P A (diff S true A B₀) = true) :
+    ∃ B R A', apply S A (diff S true A B₀) fx = .ok B ∧ reverse S (diff S true A B₀) = .ok R ∧ apply S B R fx = .ok A' ∧
+      dataEqL true A' A = true :=
+  reverse_apply_partial_on K hA hD
+
+/-- the old statements are the instance `P = fun _ => true` -/
+theorem reverse_apply_partial_of_on {S : Schema} {fx : Fixes} (K : KeyOrder S) {A D : List DNode} (hA : goodT S A = true)
+    (hD : exactDiff S A D = true) :
+    ∃ B R A', apply S A D fx = .ok B ∧ reverse S D = .ok R ∧ apply S B R fx = .ok A' ∧ dataEqL true A' A = true :=
+  reverse_apply_partial_on' (K13.keyOrderOn_of_keyOrder K) hA hD (K13.allPL_true A) (K13.allPL_true D)
+
+/-- `diff_exact` relative to `P`: the nodes of `diff(A, B)` are copies of nodes of `A` and `B`, so they satisfy `P` when those do
+(`P` looks at the schema node, the value and the list keys only: `K13.PInv`) -/
+theorem diff_exact_on {S : Schema} {P : DNode → Bool} (hP : K13.PInv S P) (A B : List DNode) (hA : wfForest S A = true)
+    (hB : wfForest S B = true) (hpA : K13.allPL P A = true) (hpB : K13.allPL P B = true) :
+    K13.exactDiff S P A (diff S true A B) = true :=
+  K13.exactDiff_diff hP A B hA hB hpA hpB
+
+/-- `reverse_apply_diff` under `KeyOrderOn S P` -/
+theorem reverse_apply_diff_on {S : Schema} {fx : Fixes} {P : DNode → Bool} (K : K13.KeyOrderOn S P) {A B₀ : List DNode}
+    (hA : wfForest S A = true) (hB : wfForest S B₀ = true) (hpA : K13.allPL P A = true) (hpB : K13.allPL P B₀ = true) :
+    ∃ B R A', apply S A (diff S true A B₀) fx = .ok B ∧ reverse S (diff S true A B₀) = .ok R ∧ apply S B R fx = .ok A' ∧
+      dataEqL true A' A = true :=
+  reverse_apply_partial_on K (K13.goodT_of_wfForest A hA hpA) (diff_exact_on K.pinv A B₀ hA hB hpA hpB)
+
+/-- `reverse_apply` (the law as the check evaluates it, with the literal second tree) under `KeyOrderOn S P`.  The hypothesis
+`KeysDistinguished` of C06 `apply_diff_partial` follows from `KeyOrderOn` (`K13.keysDistinguished_of_keyOrderOn`), for keyed
+lists as well. -/
+theorem reverse_apply_on {S : Schema} {fx : Fixes} {P : DNode → Bool} (K : K13.KeyOrderOn S P) (A B : List DNode)
+    (hA : wfForest S A = true) (hB : wfForest S B = true) (hpA : K13.allPL P A = true) (hpB : K13.allPL P B = true) :
+    ∃ A', reverseApply S true A B fx = .ok A' ∧ dataEqL true A' A = true := by
+  obtain ⟨R, A', hR, hA', hn⟩ := K13.reverse_apply_literal (fx := fx) K A B hA hB hpA hpB
+  refine ⟨A', ?_, (dataEqL_iff_norm A' A).mpr hn⟩
+  simp [reverseApply, hR, Except.bind, applyD, hA']
+
+/-- **the order hypothesis holds**: for every schema whose list keys are leaves and whose enumerations have distinct values
+(`K13.schemaOK`, decidable), the plugins' `sort` callbacks order the instances that carry all their keys with canonical values
+strictly and totally, compatibly with `lyd_compare_single`. -/
+theorem keyOrderOn_keyed {S : Schema} (hS : K13.schemaOK S = true) : K13.KeyOrderOn S (K13.keyedOK S) :=
+  K13.keyOrderOn_keyed hS
+
+/-- **`reverse_apply` with no order hypothesis**, keyed lists included: for every schema (`schemaOK`: keys are leaves, enum
+values distinct — true of every YANG module) and all well-formed trees `A`, `B` (C06 `wfForest`: leaves, containers, choices,
+system-ordered keyed lists and leaf-lists at any depth, list instances with their keys) whose key and leaf-list values are
+canonical (`K13.canonT`, decidable: what `lyd_value` stores — `wfForest` does not say it), the reversed diff of `diff(A, B)`
+applied to `B` succeeds and gives `A` back: structure, values and default flags.  No bound on depth, width, number of instances
+or number of changes. -/
+theorem reverse_apply_keyed {S : Schema} {fx : Fixes} (hS : K13.schemaOK S = true) (A B : List DNode)
+    (hA : wfForest S A = true) (hB : wfForest S B = true) (hcA : K13.canonT S A = true) (hcB : K13.canonT S B = true) :
+    ∃ A', reverseApply S true A B fx = .ok A' ∧ dataEqL true A' A = true :=
+  reverse_apply_on (K13.keyOrderOn_keyed hS) A B hA hB (K13.keyedT_of_wf hA hcA) (K13.keyedT_of_wf hB hcB)
+
+/-- … and in the form of `reverse_apply_diff` (applied to the tree the diff leads to) -/
+theorem reverse_apply_diff_keyed {S : Schema} {fx : Fixes} (hS : K13.schemaOK S = true) {A B₀ : List DNode}
+    (hA : wfForest S A = true) (hB : wfForest S B₀ = true) (hcA : K13.canonT S A = true) (hcB : K13.canonT S B₀ = true) :
+    ∃ B R A', apply S A (diff S true A B₀) fx = .ok B ∧ reverse S (diff S true A B₀) = .ok R ∧ apply S B R fx = .ok A' ∧
+      dataEqL true A' A = true :=
+  reverse_apply_diff_on (K13.keyOrderOn_keyed hS) hA hB (K13.keyedT_of_wf hA hcA) (K13.keyedT_of_wf hB hcB)
+
+/-- C06 `apply_diff_partial` in the observation of C13 with no hypothesis on the `sort` callbacks (its `KeysDistinguished` follows
+from `keyOrderOn_keyed`) -/
+theorem apply_diff_obs_keyed {S : Schema} (hS : K13.schemaOK S = true) (fx : Fixes) (A B : List DNode)
+    (hA : wfForest S A = true) (hB : wfForest S B = true) (hcA : K13.canonT S A = true) (hcB : K13.canonT S B = true) :
+    ∃ B', apply S A (diff S true A B) fx = .ok B' ∧ goodT S B' = true ∧ dataEqL true B' B = true :=
+  apply_diff_obs S fx A B hA hB
+    (K13.keysDistinguished_of_keyOrderOn (K13.keyOrderOn_keyed hS) (A ++ B) (K13.wfL_append hA hB)
+      (by rw [K13.allPL_append, K13.keyedT_of_wf hA hcA, K13.keyedT_of_wf hB hcB]; rfl))
+
+/-! ### non-vacuity: a keyed list with a `uint8` key (numeric, not lexicographic order: 2 < 10), three instances, a nested leaf
+change below a container of an instance, an instance deleted and one created, an `int8` leaf-list with a negative value -/
+
+def klS : Schema := { modName := "c13kl", nodes := [
+  { depth := 0, kind := .list, name := "l", nkeys := 1 },
+  { depth := 1, kind := .leaf, name := "k", ty := .uint8, iskey := true },
+  { depth := 1, kind := .leaf, name := "v", dflts := [bs "d"] },
+  { depth := 1, kind := .container, name := "n" },
+  { depth := 2, kind := .leaf, name := "w" },
+  { depth := 0, kind := .leaflist, name := "ll", ty := .int8 } ] }
+
+def klI (k : String) (ks : List DNode) : DNode := .inner 0 {} [] (tm 1 k :: ks)
+def klA : List DNode :=
+  [ klI "1" [tm 2 "d" true, .inner 3 {} [] [tm 4 "a"]], klI "2" [tm 2 "x"], klI "10" [], tm 5 "-3", tm 5 "5" ]
+def klB : List DNode :=
+  [ klI "1" [tm 2 "e", .inner 3 {} [] [tm 4 "b"]], klI "3" [tm 2 "y"], klI "10" [], tm 5 "5", tm 5 "7" ]
+
+example : K13.schemaOK klS = true := by decide +kernel
+example : wfForest klS klA = true ∧ wfForest klS klB = true ∧ K13.canonT klS klA = true ∧ K13.canonT klS klB = true ∧
+    (diff klS true klA klB).length = 5 := by decide +kernel
+/-- the old hypothesis fails for this schema, the new one holds -/
+example : ¬ KeyOrder klS := fun K => keyOrder_no_keyed_list K (s := 0) (k := 1) (by decide +kernel) (by decide +kernel)
+  (by decide +kernel)
+example : K13.KeyOrderOn klS (K13.keyedOK klS) := keyOrderOn_keyed (by decide +kernel)
+example : ∃ A', reverseApply klS true klA klB = .ok A' ∧ dataEqL true A' klA = true :=
+  reverse_apply_keyed (by decide +kernel) klA klB (by decide +kernel) (by decide +kernel) (by decide +kernel) (by decide +kernel)
+example : ∃ B', apply klS klA (diff klS true klA klB) = .ok B' ∧ goodT klS B' = true ∧ dataEqL true B' klB = true :=
+  apply_diff_obs_keyed (by decide +kernel) {} klA klB (by decide +kernel) (by decide +kernel) (by decide +kernel)
+    (by decide +kernel)
+example : K13.goodT klS (K13.keyedOK klS) klA = true ∧
+    K13.exactDiff klS (K13.keyedOK klS) klA (diff klS true klA klB) = true := by decide +kernel
+/-- the three enumerations the generator uses (tools/vlib/treegen.py `ENUMS`) have distinct values, so every generated schema is
+`schemaOK` (keys are leaves by construction) -/
+example : K13.tyOK (.enumeration [("a", 0), ("b", 1), ("c", 2)]) = true ∧
+    K13.tyOK (.enumeration [("zero", 0), ("five", 5), ("neg", -3), ("big", 1000)]) = true ∧
+    K13.tyOK (.enumeration [("x", 7), ("y", 3)]) = true := by decide
+/-- a non-canonical key value (`007`) is what `canonT` excludes: the `sort` callback cannot tell it from `7` -/
+example : K13.canonT klS [klI "007" []] = false ∧ wfForest klS [klI "007" []] = true := by decide +kernel
 
 /-- `reverse_apply` is false as written for user-ordered leaf-lists (finding F15(a)): the reversed moves keep their forward
 order.  A = `0 1 2`, B = `1 2 0`: the result is `0 2 1`. -/
